@@ -37,7 +37,11 @@ const (
 	pwn        = "pwn"
 )
 
-func newSandbox() *sandbox {
+func newSandbox() *sandbox { return newSandboxAt("wd") }
+
+// newSandboxAt places the working directory at R/<rel>. With rel = "lone/x/wd" its
+// ancestors lone and lone/x hold nothing else (they are part of the watched outside).
+func newSandboxAt(rel string) *sandbox {
 	top := Scratch("c11")
 	// tmpfs scratch may be reached through a symlink; the model compares resolved paths
 	if p, err := filepath.EvalSymlinks(top); err == nil {
@@ -45,7 +49,7 @@ func newSandbox() *sandbox {
 	}
 	sb := &sandbox{top: top}
 	sb.r = filepath.Join(top, "1", "2", "3")
-	sb.wd = filepath.Join(sb.r, "wd")
+	sb.wd = filepath.Join(sb.r, rel)
 	sb.cwd = filepath.Join(sb.r, "cwd")
 	sb.outside = filepath.Join(sb.r, "outside")
 	sb.tmp = filepath.Join(sb.r, "tmp")
@@ -79,6 +83,10 @@ func (sb *sandbox) buildOutside() {
 	must(os.MkdirAll(filepath.Join(sb.r, "wd-sibling"), 0o755))
 	must(os.WriteFile(filepath.Join(sb.r, "wd-sibling", "s"), []byte("sibling-s"), 0o644))
 	must(os.MkdirAll(sb.tmp, 0o755))
+	for p := filepath.Dir(sb.wd); p != sb.r; p = filepath.Dir(p) {
+		must(os.MkdirAll(p, 0o755))
+		must(os.Chmod(p, 0o755))
+	}
 	// fixed modes whatever the umask is
 	for _, d := range []string{sb.top, filepath.Join(sb.top, "1"), filepath.Join(sb.top, "1", "2"), sb.r, sb.cwd, sb.outside,
 		filepath.Join(sb.outside, "d"), filepath.Join(sb.r, "wd-sibling")} {
